@@ -18,7 +18,7 @@ META = {
                    "validated by finite differences), (iii) LOO equals the average of the explicit leave-one-out "
                    "conditional log densities, (iv) the sum-MLL is the mean of its members.",
     "bounds": {"quick": "n<=3, Gaussian / fixed+learned noise, constant/zero mean, Normal+Gamma priors, batch ()",
-               "thorough": "n<=4, batch () and (2,), LOO n<=4"},
+               "thorough": "n<=4, batch () and (2,), LOO n<=3"},
     "outside": ["stochastic (probe-vector / CG / Lanczos) log-det path and its statistical tolerance", "n>4", "rounding"],
     "assumptions": ["reals for floats", "Cholesky succeeds without jitter", "softplus below its linear threshold",
                     "antisymmetric part of d(loss)/d(Gram table) is unobservable through the symmetric parametrisation"],
@@ -46,7 +46,7 @@ def scenarios(tier, seed):
                     add("mll", n=n, lik=lik, mean=mean, priors=(n % 2 == 1), batch=0)
         add("mll", n=2, lik="gaussian", mean="constant", priors=True, batch=2)
         add("mll", n=3, lik="fixed_learn", mean="constant", priors=False, batch=2)
-        for n in (2, 3, 4):
+        for n in (2, 3):  # n=4: the leave-one-out gradient obligations do not finish (unknown), not claimed
             for lik in ("gaussian", "fixed_learn"):
                 add("loo", n=n, lik=lik, priors=(n == 3))
         add("sum_mll", n1=2, n2=3)
